@@ -383,17 +383,61 @@ def _logtag(exp, obs):
     return 'length'
 
 
+class _OneTask:
+    """Stands in for the scheduler's queue while ClockScheduler.run() runs:
+    reports empty after one pop, forwards everything else."""
+
+    def __init__(self, q):
+        self._q = q
+        self.popped = []
+
+    def empty(self):
+        return bool(self.popped) or self._q.empty()
+
+    def pop(self):
+        item = self._q.pop()
+        self.popped.append(item)
+        return item
+
+    def __getattr__(self, name):
+        return getattr(self._q, name)
+
+    def __iter__(self):
+        return iter(self._q)
+
+
 def _step(w, ref, dis, compare_pending):
     """Run the NRT clock scheduler for one task, as ClockScheduler.run does."""
-    q = w.main._clock_scheduler.queue
-    time, ct = q.pop()
+    sched = w.main._clock_scheduler
+    real = sched.queue
+    time, ct = real.peek()
     who = w.names.get(id(ct.task))
     if who is None:
         raise core.HarnessError('unknown task in the scheduler queue')
     before = ref.r[who].state
+    spurious = compare_pending and not ref.owed(who) and ref.advances(who)
     n0 = len(w.awake)
-    ct._wakeup(time)
+    # the library's own ClockScheduler.run(), limited to one task
+    one = _OneTask(real)
+    sched.queue = one
+    try:
+        sched.run()
+    finally:
+        sched.queue = real
+    if one.popped != [(time, ct)]:
+        raise core.HarnessError(f'scheduler step popped {one.popped}')
     got = w.awake[n0:]
+    if spurious:
+        # nothing (play, resume, numeric yield, signal, unhang, value) owes
+        # this routine a wake-up, yet the clock runs its body
+        k = 'resumed-by-stale-registration' if who in ref.stale else \
+            'resumed-without-signal-or-twice'
+        dis.append((k, f'no wake-up owed to {who} ({before})',
+                    {'awake': got, 'stale_registration': who in ref.stale},
+                    'a waiting routine resumes exactly once after the '
+                    'condition holds and is signalled, never before'))
+        dis += w.check_main(time, f'scheduler step of {who} at {time}')
+        return who, None
     exp = ref.wake(who)
     if len(got) != 1 or got[0][0] != who:
         dis.append(('step-wakes-wrong-task', [who, exp], got,
@@ -546,6 +590,14 @@ COND_CONFIGS = {
                'fvs': ['f0'],
                'ops': [['play', 'w0'], ['play', 's0'], ['play', 's1'],
                        ['fvset', 'f0', 6]]},
+    # a waiter that is stopped / reset / played again while parked; its
+    # second run waits on the other condition only
+    'relife': {'routines': {'w0': G([['wait', 'c0'], ['wait', 'c1'], YX],
+                                    [['wait', 'c1'], YX])},
+               'conds': ['c0', 'c1'],
+               'ops': [['play', 'w0'], ['stop', 'w0'], ['reset', 'w0'],
+                       ['set', 'c0', True], ['set', 'c1', True],
+                       ['signal', 'c0'], ['signal', 'c1']]},
     # a condition and a flow variable together
     'mixed': {'routines': {'w0': G([['wait', 'c0'], ['fvget', 'f0'], EC]),
                            'w1': G([['fvget', 'f0'], ['wait', 'c0'], EC])},
@@ -582,6 +634,9 @@ class CondSys:
         parked = self._parked()
         if name == 'step':
             who, obs = _step(w, ref, dis, True)
+            if obs is None:         # spurious resumption: reference stops
+                self.last = ['spurious', who]
+                return dis
         else:
             t0 = w.main.main_tt._m_seconds
             try:
@@ -589,6 +644,10 @@ class CondSys:
                     w.routines[op[1]].play()
                     ref.r[op[1]].call(
                         'play', observed=w.routines[op[1]].state.name)
+                    exp = rr.ret(None)
+                elif name in ('stop', 'reset'):
+                    getattr(w.routines[op[1]], name)()
+                    ref.r[op[1]].call(name)
                     exp = rr.ret(None)
                 elif name == 'set':
                     w.conds[op[1]].test = op[2]
@@ -624,12 +683,10 @@ class CondSys:
         owed = {n: 0 for n in ref.pending}
         for _, n in w.queue():
             owed[n] = owed.get(n, 0) + 1
-        if owed != ref.pending:
-            k = 'wakeups-missing' if any(
-                owed.get(n, 0) < v for n, v in ref.pending.items()) \
-                else 'wakeups-too-many'
-            dis.append((f'{k}-after-{name}', ref.pending, owed,
-                        'wake-ups queued per routine on the NRT scheduler'))
+        if any(owed.get(n, 0) < v for n, v in ref.pending.items()):
+            dis.append((f'wakeup-missing-after-{name}', ref.pending, owed,
+                        'wake-ups queued per routine on the NRT scheduler: '
+                        'a released (or playing) routine is never resumed'))
         self.last = [obs, owed]
         return dis
 
@@ -651,6 +708,22 @@ class CondSys:
 
 
 SYSTEMS = {'life': LifeSys, 'cond': CondSys}
+
+
+def stopped_or_reset_while_parked(v):
+    """Known finding C11-condition-stale-registration: the resumed routine was
+    stopped or reset (operation in the history) while it was parked, and the
+    reference says the wake-up comes from that stale registration."""
+    case = v.get('case', {})
+    if case.get('system') != 'cond':
+        return False
+    obs = v.get('observed')
+    if not (isinstance(obs, dict) and obs.get('stale_registration') is True):
+        return False
+    return any(op[0] in ('stop', 'reset') for op in case.get('history', []))
+
+
+PREDICATES = {'stopped_or_reset_while_parked': stopped_or_reset_while_parked}
 
 
 # ---------------------------------------------------------------------------
@@ -768,11 +841,6 @@ def check_rt(prog, how, res):
             bad('rt-resumed-not-once' if len(passed) > 1 else
                 'rt-waiter-not-resumed', want, len(passed),
                 f'{w}: resumptions after wait(): {ks}')
-        adds = [e for e in trace if e[0] == 'add' and e[3] == w]
-        want_adds = [nwait + x for x in want]
-        if len(adds) not in want_adds:
-            bad('rt-scheduled-not-once', want_adds, len(adds),
-                f'{w}: insertions into clock queues {adds}')
     for q, lst in res['pending'].items():
         names = [n for _, n in lst if n in ('w0', 'w1')]
         if names:
@@ -872,8 +940,8 @@ def main(ctx):
         'required), which queued task the NRT scheduler pops next (the '
         'implementation\'s queue is followed), number of queue entries in '
         'the life system (pause/resume duplicates are C10\'s subject)',
-        'one scheduler step = pop one entry of main._clock_scheduler.queue '
-        'and call its _wakeup(time), as ClockScheduler.run does; '
+        'one scheduler step = the library\'s ClockScheduler.run() with its '
+        'queue wrapped so that it reports empty after one pop; '
         '__awake__ results are observed by an instance-level wrapper that '
         'delegates to Routine.__awake__']
     quick = ctx.tier == 'quick'
